@@ -17,7 +17,7 @@ RULE = (
     'or started paused, with 1-2 `cylc trigger` commands at seeded main-loop '
     'interception points on a group of 1-5 task instances grown from a '
     'seeded root along graph edges (so that groups have internal '
-    'prerequisites; in 40% of the triggers the root is picked at injection '
+    'prerequisites; in 55% of the triggers the root is picked at injection '
     'time among the pooled tasks that are finished-but-incomplete or live), in any states the run has reached (unspawned, waiting, '
     'queued, held, live, finished, failed), with --flow unset, =new, =1 or '
     '=none; a hold or hold point precedes the trigger in some runs. Oracles: '
@@ -114,9 +114,9 @@ def gen_cmds(rng, prog, model, paused):
             group.add(rng.choice(valid))
         flow = rng.choice([[], [], [], ['new'], ['new'], ['1'], ['none']])
         dyn = None
-        if rng.random() < 0.4:
+        if rng.random() < 0.55:
             dyn = [rng.random(), rng.random(),
-                   rng.choice(['finished', 'finished', 'live'])]
+                   rng.choice(['finished', 'finished', 'finished', 'live'])]
         cmds.append({'iter': it, 'slot': rng.randint(0, 1),
                      'name': 'force_trigger_tasks', 'dyn': dyn,
                      'group': sorted([list(g) for g in group]),
@@ -549,8 +549,8 @@ def run(params):
         rates['job_prep_fail'] = 0.1
     paused = rng.random() < 0.3
     case = Case(seed, knobs=KNOBS, rates=rates,
-                policy=rng.choice(['complete', 'complete', 'any']),
-                plan_kw={'p_fail': 0.15, 'p_subfail': 0.0}, gkw=gkw,
+                policy=rng.choice(['complete', 'any', 'any']),
+                plan_kw={'p_fail': 0.3, 'p_subfail': 0.0}, gkw=gkw,
                 opts={'paused_start': True} if paused else {})
     case.choices = params.get('choices')
     case.build()
